@@ -296,7 +296,7 @@ def cond_to_lin(c):
 # state, effects, paths
 
 class Effect:
-    __slots__ = ('kind', 'name', 'args', 'node', 'result', 'inloop', 'extra', 'chain', 'frame')
+    __slots__ = ('kind', 'name', 'args', 'node', 'result', 'inloop', 'extra', 'chain', 'frame', 'pointees')
 
     def __init__(self, kind, name, args=(), node=None, result=None, extra=None, chain=None):
         self.kind = kind      # 'call' | 'icall' | 'store' | 'ret' | 'loop'
@@ -308,6 +308,7 @@ class Effect:
         self.extra = extra
         self.chain = chain
         self.frame = None
+        self.pointees = {}    # call: local object handed over by address (directly, or stored inside one) -> its value before the call
 
     def where(self):
         return cast.where(self.node) if self.node else ''
@@ -431,6 +432,7 @@ class Engine:
         self.record_loads = False
         self.pure = set()            # callees shown elsewhere not to modify their arguments' objects
         self.clobber_pre = {}        # havoc atom -> value the location had before the clobbering call
+        self.call_clobbered = {}     # havoc atom -> local object a call may have written through its address
         self.clobber_origin = {}     # havoc atom -> location it stands for (value after a call that may have written it)
         self.restore_invariants = True
         self.index_pointer_walks = True
@@ -1567,6 +1569,40 @@ class _Activation:
         keys, calls = act2.assigned_keys([u2.body(name)], s)
         return act2, s, keys, calls
 
+    def reachable_locals(self, st, vals):
+        """locations K (other than the arguments' own pointees) whose address &K is stored, in the state before the call,
+        inside an object that one of the pointer arguments leads to - transitively"""
+        seen, out, work = set(), [], []
+        for v in vals:
+            if not isinstance(v, tuple):
+                continue
+            b = v[1] if v[0] in ('+', '-') else v
+            if isinstance(b, tuple) and b[0] == '&':
+                work.append(b)
+                seen.add(b)
+        while work:
+            b = work.pop()
+            for kk, val in list(st.mem.items()):
+                if not (kk == b[1] or rooted_at(kk, b)):
+                    continue
+                stk = [val]
+                while stk:
+                    x = stk.pop()
+                    if not isinstance(x, tuple) or not x:
+                        continue
+                    if x[0] == '&' and len(x) == 2 and isinstance(x[1], tuple):
+                        # the outermost address only: &p->ep.source hands out the source object, not all of p->ep
+                        r = x[1]
+                        while isinstance(r, tuple) and r[0] in ('f', 'i', '&'):
+                            r = r[1]
+                        if isinstance(r, tuple) and r[0] == 'v' and x not in seen:
+                            seen.add(x)
+                            out.append(x[1])
+                            work.append(x)
+                        continue
+                    stk.extend(y for y in (x if isinstance(x[0], tuple) else x[1:]) if isinstance(y, tuple))
+        return out
+
     def clobber_arg(self, st, argnode, tag, act=None, es=None):
         """a callee may write through a non-const pointer argument"""
         qt = cast.qual_type(argnode)
@@ -1595,7 +1631,9 @@ class _Activation:
             key = base[1]
             for kk in [kk for kk in st.mem if kk == key or rooted_at(kk, base)]:
                 del st.mem[kk]
-            st.mem[key] = fresh(tag + ':' + fmt(key))
+            h = fresh(tag + ':' + fmt(key))
+            st.mem[key] = h
+            self.e.call_clobbered[h] = key
         st.havoc_roots.append(base)
 
     def exec_loop(self, n, st, ctx, k):
@@ -2348,6 +2386,13 @@ class _Activation:
                     ef.extra = None
             s2.effects.append(ef)
             if name not in PURE_FUNCTIONS and name not in self.e.pure and not (name and self.e.is_pure(name)):
+                # a local whose address the caller has stored inside an object handed to the callee (a driver's context
+                # in a Source / Sink, a buffer in a sink) may be written by the callee through that stored address
+                reach = self.reachable_locals(s, vals)
+                for K in reach + [v_[1] for v_ in vals if isinstance(v_, tuple) and v_[0] == '&' and isinstance(v_[1], tuple) and v_[1][0] == 'v']:
+                    ef.pointees[K] = self.whole_struct(s, K)
+                for K in reach:
+                    self.clobber_term(s2, ('&', K), 'call:' + desc)
                 for a, v in zip(argnodes, vals):
                     qt = cast.qual_type(a)
                     if '*' in qt or '[' in qt:
